@@ -122,7 +122,7 @@ type Store struct {
 	tab     map[string]*Term
 	terms   []*Term
 	vars    map[string]*Term
-	intBits map[int]int // signed bit bound of 64-bit terms produced by the IntFloat rewrite
+	intBits map[int]int  // signed bit bound of 64-bit terms produced by the IntFloat rewrite
 	zeroish map[int]bool // float terms known to be +0 or -0 (finite value times a zero constant)
 	True    *Term
 	False   *Term
